@@ -1,6 +1,7 @@
 SPECIFICATION TSpec
 CONSTANTS
   Params = {"p1", "p2", "p3", "p4"}
+  Mod2 = {}
   Vals = {"a", "b", "c", "d"}
   Errs = {"e1", "e2", "e3", "e4"}
   Invs = {"i1", "i2"}
@@ -9,6 +10,7 @@ CONSTANTS
   InitStamps = {0}
   NoDefault = {}
   InitScopeSets = {{}}
+  HiddenChoices = {{}}
   ActScopes = {}
   MaxNow = 1000000
 CONSTRAINT Track
